@@ -58,7 +58,7 @@ func (c04Checker) Meta() CheckerMeta {
 
 func c04Gen(tp *Tapes) *c04Spec {
 	g := tp.Gen
-	sp := &c04Spec{Prog: GenProgram(g, 6+g.Draw(22))}
+	sp := &c04Spec{Prog: GenProgram(g, 6+g.DrawD(22, 50))}
 	sp.Loader = []string{"fs", "virt", "http"}[g.Draw(3)]
 	sp.Via = []string{"FromFile", "FromCache", "FromString"}[g.Draw(3)]
 	np := 2 + g.Draw(3)
@@ -66,7 +66,7 @@ func c04Gen(tp *Tapes) *c04Spec {
 		sp.Pool = append(sp.Pool, GenCtxDesc(g))
 	}
 	sp.Pool[0].BadKey = false
-	n := 2 + g.Draw(5)
+	n := 2 + g.DrawD(5, 14)
 	f := tp.Fault
 	for i := 0; i < n; i++ {
 		e := c04Exec{Ctx: g.Draw(np), Entry: g.Draw(5)}
